@@ -11,6 +11,7 @@ __all__ = [
 ]
 
 import numpy as np
+from pandas.api.types import is_integer_dtype
 from statsmodels.tsa.seasonal import seasonal_decompose
 
 from sktime.transformations.base import _SeriesToSeriesTransformer
@@ -69,7 +70,13 @@ class Deseasonalizer(_SeriesToSeriesTransformer):
             )
             % self.sp
         )
-        return np.resize(np.roll(self.seasonal_, shift=shift), y.shape[0])
+        seasonal = np.roll(self.seasonal_, shift=shift)
+        if is_integer_dtype(y.index):
+            # use each time point's own position so that time indices with
+            # gaps (e.g. forecasts for non-contiguous horizons) stay aligned
+            steps = np.asarray(y.index - y.index[0])
+            return np.asarray(seasonal)[steps % self.sp]
+        return np.resize(seasonal, y.shape[0])
 
     def fit(self, Z, X=None):
         """Fit to data.
